@@ -232,6 +232,19 @@ func (d *dealer) register(callee *wamp.Session, msg *wamp.Register) {
 	}
 
 	invoke, _ := wamp.AsString(msg.Options[wamp.OptInvoke])
+	switch invoke {
+	case "", wamp.InvokeSingle, wamp.InvokeRoundRobin, wamp.InvokeRandom, wamp.InvokeFirst, wamp.InvokeLast:
+	default:
+		// An unknown invocation policy cannot be used to select a callee.
+		d.trySend(callee, &wamp.Error{
+			Type:      msg.MessageType(),
+			Request:   msg.Request,
+			Error:     wamp.ErrInvalidArgument,
+			Arguments: wamp.List{fmt.Sprint("invalid invocation policy ", invoke)},
+			Details:   wamp.Dict{},
+		})
+		return
+	}
 	forwardTimeout, _ := msg.Options[wamp.OptForwardTimeout].(bool)
 	var metaPubs []*wamp.Publish
 	done := make(chan struct{})
